@@ -66,6 +66,28 @@ def build_and_run(c, sdir):
     return name, "ok", "", " ".join(cmd)
 
 
+def selector_rt_check(sdir):
+    """the selector header with the runtimes really enabled (mock runtimes), instantiated and run"""
+    out = []
+    for name, defs in (("starpu+specx+openmp", ["-fopenmp", "-DTBF_USE_OPENMP", "-DTBF_USE_SPECX", "-DTBF_USE_STARPU"]),
+                       ("specx+openmp", ["-fopenmp", "-DTBF_USE_OPENMP", "-DTBF_USE_SPECX"]),
+                       ("starpu", ["-DTBF_USE_STARPU"]), ("openmp", ["-fopenmp", "-DTBF_USE_OPENMP"]), ("none", [])):
+        exe = os.path.join(sdir, "sel_" + name.replace("+", "_"))
+        cmd = ["g++"] + FLAGS + defs + ["-I" + os.path.join(vlib.REPO, "src"), "-I" + os.path.join(vlib.ROOT, "harness"), "-I" + os.path.join(vlib.ROOT, "harness", "mockrt"),
+                                        os.path.join(vlib.ROOT, "harness", "c19_selector_rt.cpp"), "-o", exe]
+        p = subprocess.run(cmd, capture_output=True, text=True)
+        if p.returncode != 0:
+            errs = [l for l in p.stderr.split("\n") if "error" in l]
+            out.append((name, "selector with %s does not compile: %s" % (name, (errs[0] if errs else p.stderr[-300:])[:300]), " ".join(cmd)))
+            continue
+        r = subprocess.run([exe], capture_output=True, text=True, timeout=600, env=vlib.SAN_ENV)
+        if r.returncode != 0 or not r.stdout.startswith("OK"):
+            out.append((name, "selected executor (%s) fails: %s %s" % (name, r.stdout.strip()[:120], vlib.summarize_stderr(r.stderr, r.returncode)), " ".join(cmd)))
+        else:
+            out.append((name, None, r.stdout.strip()))
+    return out
+
+
 def selector_check():
     """the algorithm selector header with OpenMP, Specx and StarPU all defined (preprocessed with empty stub runtimes)"""
     cmd = ["g++", "-std=c++17", "-E", "-fopenmp", "-I" + os.path.join(vlib.REPO, "src"), "-I" + os.path.join(vlib.ROOT, "harness", "stubs"),
@@ -110,11 +132,17 @@ def run(tier, seed):
         rep.evaluations += 1
         if m:
             rep.violation(dict(kind="compile", clause="selector-all-runtimes", has_input=True), m, dict(command="g++ -E harness/c19_selector.cpp"))
+        sel = selector_rt_check(sdir)
+        for name, msg, info in sel:
+            rep.evaluations += 1
+            if msg:
+                rep.violation(dict(kind="compile", clause="selector-runtime:" + name, has_input=True), msg, dict(command=info))
+        rep.coverage["selector_runs"] = ["%s: %s" % (n, i if not m else "FAIL") for n, m, i in sel]
         rep.sample(dict(config=cfgs[0], result=results[0][1]))
         rep.sample(dict(config=cfgs[-1], result=results[-1][1]))
         rep.coverage["explanation"] = ("'instantiates without compile error' cannot be stated about a Gallina model; it is decided by compiling %d translation units (dimension 1..4 x float/double x Morton/periodic/Hilbert(3D) x "
                                        "automatic/explicit block size x sequential/OpenMP/target-source, data type != coordinate type, zero result values) from /repo and running in each the exactly-once, construction and "
-                                       "move/rebuild/execute checks under ASan/UBSan; plus the selector header with OpenMP+Specx+StarPU all defined. The 'satisfies C01/C06/C13 like the default' half rests on the theorems of "
+                                       "move/rebuild/execute checks under ASan/UBSan; plus the selector header with OpenMP+Specx+StarPU all defined (preprocessed with stubs, and compiled + run on the mock runtimes for five macro combinations). The 'satisfies C01/C06/C13 like the default' half rests on the theorems of "
                                        "Properties_C01/C06/C07/C13 (%d obligations re-checked), which are generic in the dimension, block size and grouping mode." % (len(cfgs), obligations))
         rep.coverage["rule"] = "one TU per configuration point; non-trivial = every TU (each has 300 particles, height 4-5, a move of a third of the particles, two executions)"
         rep.coverage["configs"] = [r[0] + ":" + r[1] for r in results]
